@@ -76,7 +76,10 @@ def generate(rng, seed, part):
     k = rng.randint(3, 6)
     paths = ["facade"] + [rng.choice(PATHS[1:]) for _ in range(k - 1)]
     rng.shuffle(paths)
-    cfg = {"class": klass, "phi_bins": rng.choice([1, 3, 4, 8]), "theta_bins": rng.choice([1, 2, 5]),
+    vtype = rng.choice(["f64", "f64", "f32"])
+    if vtype == "f32":
+        pts = [build.q32(p) for p in pts]
+    cfg = {"class": klass, "vtype": vtype, "phi_bins": rng.choice([1, 3, 4, 8]), "theta_bins": rng.choice([1, 2, 5]),
            "r_edges": rng.choice([[0.0, 1.0, 2.0, 4.0, 8.0], [0.0, 0.5, 5.0], [1.0, 2.0, 3.0], [0.0, 20.0]]),
            "z_edges": rng.choice([[-4.0, -1.0, 0.0, 1.0, 4.0], [-10.0, 10.0], [0.0, 1.0, 2.0]]),
            "paths": paths, "weights": weights}
@@ -255,7 +258,8 @@ def execute(plan, ctx):
             ctx.fault("outside_radius")
 
     # one caller-owned float64 array: its rows / slices are handed to several entry paths and replicas
-    P_all = np.asarray(pts, dtype=np.float64).reshape(len(pts), d)
+    # (in "f32" runs the caller's array is single precision; list deliveries of the same points stay double)
+    P_all = np.asarray(pts, dtype=np.float32 if cfg.get("vtype") == "f32" else np.float64).reshape(len(pts), d)
     P_ref = P_all.copy()
 
     def tr(points):
